@@ -222,7 +222,18 @@ func (c *otApplyContext) applySubsSequence(seq []gID) {
 	case 0:
 		/* Spec disallows this, but Uniscribe allows it.
 		 * https://github.com/harfbuzz/harfbuzz/issues/253 */
-		c.buffer.deleteGlyph()
+		b := c.buffer
+		// When the cluster of the deleted glyph survives, it keeps the glyph flags
+		// (say, of the context that led here): they are only spread over the cluster
+		// at the very end of shaping.
+		if flags, cluster := b.cur(0).Mask&glyphFlagDefined, b.cur(0).Cluster; flags != 0 {
+			if b.idx+1 < len(b.Info) && b.Info[b.idx+1].Cluster == cluster {
+				b.Info[b.idx+1].Mask |= flags
+			} else if L := len(b.outInfo); L != 0 && b.outInfo[L-1].Cluster == cluster {
+				b.outInfo[L-1].Mask |= flags
+			}
+		}
+		b.deleteGlyph()
 	default:
 		var klass uint16
 		if c.buffer.cur(0).isLigature() {
